@@ -101,7 +101,7 @@ Print Assumptions C06_mtvrp_checker_final_return_refuted.
 Theorem C06_mtvrp_checker_open_depot_deadline_refuted :
   exists (i : mtvrp_inst) (acts : list nat),
     mtvrp_wfb i = true /\ data_ok exact i = true /\
-    adm (E:=MTVRP exact false) i acts = true /\ done (MTVRP exact false) i (run (E:=MTVRP exact false) i acts) = true /\
+    adm (E:=MTVRP exact true) i acts = true /\ done (MTVRP exact true) i (run (E:=MTVRP exact true) i acts) = true /\
     mtvrp_feasibleb i 0 acts = true /\ mtvrp_checker exact i acts = false.
 Proof. exact mtvrp_checker_open_depot_deadline_refuted. Qed.
 Print Assumptions C06_mtvrp_checker_open_depot_deadline_refuted.
